@@ -382,3 +382,68 @@ Example integer_views_examples :
   as_u64 (NInt (-1)) = None /\ as_u64 (NInt 9223372036854775807) = Some 9223372036854775807 /\
   as_i64 (NFloat 4617315517961601024) = None /\ as_u64 (NFloat 4617315517961601024) = None.
 Proof. vm_compute. repeat split. Qed.
+
+(* ---------- L5: an independent reading of the integers on the wire ----------
+   num_wire states the accepted values with the decoder's own helpers (rd_be: Horner accumulation, sext: compare with half the
+   modulus).  Written out from the format instead: the bytes are the big-endian digits of a number in base 256,
+        be_sum [b_1; ..; b_k] = b_1 * 256^(k-1) + ... + b_k * 256^0,
+   and a signed integer is that number in two's complement: 2^(8k) is subtracted exactly when the top bit of the FIRST byte is
+   set.  Both readings agree on every byte string. *)
+Fixpoint be_sum (bs : list N) : Z :=
+  match bs with [] => 0%Z | b :: r => (Z.of_N b * 256 ^ Z.of_nat (length r) + be_sum r)%Z end.
+Definition twos_value (bs : list N) : Z :=
+  match bs with
+  | [] => 0%Z
+  | b :: _ => if 128 <=? b then (be_sum bs - 256 ^ Z.of_nat (length bs))%Z else be_sum bs
+  end.
+
+Lemma rd_be_sum bs : forall acc, Z.of_N (rd_be bs acc) = (Z.of_N acc * 256 ^ Z.of_nat (length bs) + be_sum bs)%Z.
+Proof.
+  induction bs as [|b r IH]; intros acc; cbn [rd_be be_sum length].
+  - change (Z.of_nat 0) with 0%Z. rewrite Z.pow_0_r. lia.
+  - rewrite IH, Nat2Z.inj_succ, Z.pow_succ_r by lia. set (P := (256 ^ Z.of_nat (length r))%Z). lia.
+Qed.
+Theorem rd_be_is_be_sum bs : Z.of_N (rd_be bs 0) = be_sum bs.
+Proof. rewrite rd_be_sum. change (Z.of_N 0) with 0%Z. lia. Qed.
+Lemma be_sum_bound bs : bytes_ok bs -> (0 <= be_sum bs < 256 ^ Z.of_nat (length bs))%Z.
+Proof.
+  induction 1 as [|b r Hb Hr IH]; cbn [be_sum length].
+  - change (Z.of_nat 0) with 0%Z. rewrite Z.pow_0_r. lia.
+  - rewrite Nat2Z.inj_succ, Z.pow_succ_r by lia. set (P := (256 ^ Z.of_nat (length r))%Z) in *. nia.
+Qed.
+Theorem sext_is_twos_value bs : bytes_ok bs -> bs <> [] -> sext (length bs) (rd_be bs 0) = twos_value bs.
+Proof.
+  intros Hb Hne. destruct bs as [|b r]; [contradiction Hne; reflexivity|]. inversion Hb as [|? ? Hb0 Hr]; subst.
+  unfold sext, twos_value. rewrite rd_be_is_be_sum. cbv zeta.
+  assert (E2 : forall k, (2 ^ (8 * Z.of_nat k) = 256 ^ Z.of_nat k)%Z) by (intros k; rewrite Z.pow_mul_r by lia; reflexivity).
+  rewrite E2.
+  cbn [be_sum length]. pose proof (be_sum_bound r Hr) as Br.
+  rewrite Nat2Z.inj_succ, Z.pow_succ_r by lia. set (P := (256 ^ Z.of_nat (length r))%Z) in *.
+  assert (HP : (0 < P)%Z) by (unfold P; apply Z.pow_pos_nonneg; lia).
+
+  replace (256 * P / 2)%Z with (128 * P)%Z by (apply Z.div_unique_exact; lia).
+  destruct (128 <=? b) eqn:E.
+  - apply N.leb_le in E. replace (_ <? _)%Z with false by (symmetry; apply Z.ltb_ge; nia). reflexivity.
+  - apply N.leb_gt in E. replace (_ <? _)%Z with true by (symmetry; apply Z.ltb_lt; nia). reflexivity.
+Qed.
+(* num_wire, read with these: what Number::decode returns for an integer is the value of its bytes *)
+Theorem num_wire_by_value bs n : bytes_ok bs -> num_wire bs n ->
+  match bs with
+  | t :: rest =>
+      (t = NUMBER_INT -> n = NInt (twos_value rest)) /\
+      (t = NUMBER_UINT -> exists u, n = NUInt u /\ Z.of_N u = be_sum rest) /\
+      (t = NUMBER_FLOAT -> exists b, n = NFloat b /\ Z.of_N b = be_sum rest)
+  | [] => False
+  end.
+Proof.
+  intros Hb H. inversion H as [| | | |rest Hl|rest Hl|rest Hl]; subst;
+    try (repeat split; intros E; vm_compute in E; discriminate E).
+  - inversion Hb as [|? ? _ Hr]; subst. split; [|split]; intros E; try (vm_compute in E; discriminate E).
+    rewrite sext_is_twos_value; [reflexivity|exact Hr|]. destruct rest; [cbn in Hl; intuition lia|discriminate].
+  - split; [|split]; intros E; try (vm_compute in E; discriminate E). eexists; split; [reflexivity|apply rd_be_is_be_sum].
+  - split; [|split]; intros E; try (vm_compute in E; discriminate E). eexists; split; [reflexivity|apply rd_be_is_be_sum].
+Qed.
+Example twos_value_examples :
+  twos_value [255] = (-1)%Z /\ twos_value [128; 0] = (-32768)%Z /\ twos_value [127; 255] = 32767%Z /\
+  twos_value [255; 255; 255; 254] = (-2)%Z /\ be_sum [1; 0] = 256%Z.
+Proof. vm_compute. repeat split. Qed.
